@@ -1207,3 +1207,6 @@ func TestC19LengthSweep(t *testing.T) {
 }
 
 var _ = big.NewInt
+
+// Coverage-guided variant of the same property (thorough tier).
+func FuzzC19Untrusted(f *testing.F) { h.Fuzz(f, c19Gen, c19Check) }
